@@ -48,6 +48,9 @@ pub enum HOp {
     Clone { switch: bool },
     /// switch to instance number (k mod live instances)
     Switch(usize),
+    /// `current.clone_from(instance k mod live instances)`: like a clone, the target never
+    /// returns a half afterwards — neither the source's nor the one it held itself
+    CloneFrom(usize),
 }
 
 #[derive(Clone, Debug, Serialize, Deserialize)]
@@ -220,6 +223,24 @@ pub fn check_hist(c: &HistCase) -> CheckResult {
                 }
             }
             HOp::Switch(i) => cur = i % inst.len(),
+            HOp::CloneFrom(i) => {
+                let j = i % inst.len();
+                if j == cur {
+                    continue;
+                }
+                if inst[cur].1 || inst[j].1 {
+                    clone_while_pending = true;
+                }
+                let src = inst[j].0.clone_box();
+                // the source itself, not a copy of it: take it out of the list for the call
+                let (real_src, src_pending) = std::mem::replace(&mut inst[j], (src, false));
+                let ok = inst[cur].0.clone_from_dyn(&*real_src);
+                inst[j] = (real_src, src_pending);
+                if !ok {
+                    return Err(Fail::inconclusive("C16:clone_from", "clone_from between two JitterRng instances of the harness failed"));
+                }
+                inst[cur].1 = false;
+            }
             HOp::U32 | HOp::U64 | HOp::Fill(_) => {
                 let (g, pending) = &mut inst[cur];
                 let before = g.jitter().unwrap().reads();
@@ -328,6 +349,7 @@ pub fn def(ctx: &Ctx) -> PropDef {
                     4 => Just(HOp::U64),
                     3 => (0usize..=20).prop_map(HOp::Fill),
                     3 => any::<bool>().prop_map(|switch| HOp::Clone { switch }),
+                    2 => (0usize..6).prop_map(HOp::CloneFrom),
                     2 => (0usize..6).prop_map(HOp::Switch),
                 ];
                 (gens::timer_prog(true, 10), rounds(), proptest::collection::vec(hop, 1..=20)).prop_map(|(prog, rounds, ops)| HistCase { prog, rounds, ops }).boxed()
